@@ -145,6 +145,45 @@ func (e *evil) initiatorAttack(victim string, o akeOpts, name string) {
 	enc, mac := e.seal(keys, !o.wrongKind, gx, k.Gy, o)
 	rs := append(ref.BuildHeader(o.version, ref.TypeRevealSig, st, rt), (&ref.RevealSig{R: r, EncSig: enc, MAC: mac}).Bytes()...)
 	w.ReceiveAttack(p, [][]byte{ref.Armor(rs)}, name+"/revealsig")
+	if o.degen < 0 && o.claim == "E" && !o.swapSig && !o.wrongKind && p.Conv.IsEncrypted() {
+		e.refPeer(victim, o.version, st, rt, xsec, k.Gy, name)
+	}
+}
+
+// refPeer: E, now in a genuine session with the victim, speaks the data-message protocol with
+// messages built by the independent reference only (no padding, TLVs in last position, ...), and
+// the victim's replies are read back by the reference (via the decoder).
+func (e *evil) refPeer(victim string, version int, st, rt uint32, cur *world.Secret, victimPub *big.Int, name string) {
+	w := e.w
+	p := w.P[victim]
+	vsec := w.Reg.Secret(w.Reg.PubID(victimPub))
+	if vsec == nil {
+		return
+	}
+	next := e.secret()
+	ctr := uint64(0)
+	send := func(label string, flag byte, plain []byte) {
+		ctr++
+		keys := ref.DeriveSessionKeys(cur.Pub, vsec.Pub, ref.Shared(vsec.Pub, cur.X))
+		d := &ref.Data{Flag: flag, SKID: 1, RKID: 1, Y: next.Pub}
+		binary.BigEndian.PutUint64(d.Ctr[:], ctr)
+		d.Enc = ref.CTR(keys.SendAES, d.Ctr[:], plain)
+		hdr := ref.BuildHeader(version, ref.TypeData, st, rt)
+		d.MAC = ref.HMAC1(keys.SendMAC, hdr, d.Unsigned())
+		w.ReceiveAttack(p, [][]byte{ref.Armor(append(hdr, d.Bytes()...))}, name+"/ref-data-"+label)
+	}
+	t1, t2, t3 := w.Text(8001), w.Text(8002), w.Text(8003)
+	send("text-only", 0, t1)
+	send("text-nul", 0, append(append([]byte{}, t2...), 0))
+	pad := 256 - ((len(t3) + 5) % 256)
+	send("text-padded", 0, ref.JoinPlain(t3, []ref.TLV{{Type: 0, Value: make([]byte, pad)}}))
+	send("extra-key", 1, ref.JoinPlain(nil, []ref.TLV{{Type: 8, Value: []byte{0, 0, 0, 9, 'u', 's', 'e'}}}))
+	send("unknown-tlv", 0, ref.JoinPlain(w.Text(8004), []ref.TLV{{Type: 0x7777, Value: []byte("future")}, {Type: 0, Value: nil}}))
+	send("smp-abort-last", 1, ref.JoinPlain(nil, []ref.TLV{{Type: 6, Value: nil}}))
+	// the victim answers; the decoder (reference) must be able to read it with E's keys
+	w.Send(p, 8005)
+	send("disconnect-last", 1, ref.JoinPlain(nil, []ref.TLV{{Type: 1, Value: nil}}))
+	w.Send(p, 8006)
 }
 
 // responderAttack: E makes the victim start (query), answers its DH-Commit with a DH-Key and
